@@ -544,7 +544,37 @@ pub fn run_shard(ctx: &mut Ctx) {
     let is07 = ctx.prop == "C07";
     if is07 {
         full_queue_rounds(ctx, &mut r);
+        // records of 130-600 kB in closed chunks read by several threads at once
+        let n = if ctx.tier == Tier::Quick { 2 } else { 200 };
+        for _ in 0..n {
+            if !ctx.time_left() {
+                break;
+            }
+            match crate::props::bigread::round(r.next()) {
+                Ok((reads, bytes)) => {
+                    ctx.out.count("large_record_rounds", 1);
+                    ctx.out.count("large_record_concurrent_reads_checked", reads);
+                    ctx.out.count("large_record_bytes_read_back", bytes);
+                }
+                Err(vi) => ctx.out.viol(vi),
+            }
+        }
     } else {
+        // chunks far larger than the cache limits: the boundary jumps over a whole chunk at once
+        let n = if ctx.tier == Tier::Quick { 4 } else { 400 };
+        for _ in 0..n {
+            if !ctx.time_left() {
+                break;
+            }
+            match crate::props::bigchunk::round(r.next()) {
+                Ok((obs, jump)) => {
+                    ctx.out.count("large_chunk_rounds", 1);
+                    ctx.out.count("large_chunk_observations", obs);
+                    ctx.out.tag("largest_boundary_jump(entries_becoming_evictable_at_once)", &format!("{:04}", jump));
+                }
+                Err(vi) => ctx.out.viol(vi),
+            }
+        }
         // accounting along walks in which update_state moves last/purged back and forth, so that log ids that are
         // still resident are appended again, truncated, purged and replayed by restarts (no specification needed:
         // the rule compares stat() with the resident set)
